@@ -11,7 +11,8 @@ if [ ! -x "$DRV" ]; then
   (cd "$HERE/driver" && CARGO_NET_OFFLINE=true cargo build --offline >&2)
 fi
 SYSROOT="$(rustc +nightly --print sysroot)"
-TARGET="$HERE/.work/target/$(echo "$WORLD" | tr '+,' '__')"
+WORKDIR="${VERIF_WORK:-$HERE/.work}"
+TARGET="$WORKDIR/target/$(echo "$WORLD" | tr '+,' '__')"
 mkdir -p "$OUT" "$TARGET"
 rm -f "$OUT"/*.json
 FLAGS=()
